@@ -12,7 +12,10 @@
             decision = the chosen thread performs the access it is blocked in front of and runs up to
             its next yield site), as executed by the harness
    one triple per thread: ((tokens) same finished) where tokens = how each member appears in the
-   string the thread obtained (2i inline, 2i+1 as @include), same = equal to the solo result. *)
+   string the thread obtained (2i inline, 2i+1 as @include), same = equal to the solo result;
+   then one triple for the stand-off files: per member 1 if its file does not hold the member's
+   content after the run.
+   The model is run with the mode confined to the thread (sh = false: the code since 5f67dd0). *)
 From Coq Require Import List ZArith Bool Arith.
 Import ListNotations.
 From Stam Require Import Base.Sx Model.Conc Spec.ConcSpec.
@@ -51,20 +54,23 @@ Definition obs_thread (want : list tok) (t : thread) : sx :=
   if dead t then L [L [A (-3)%Z]; A 0%Z; A 0%Z]
   else L [of_nats (out t); of_bool (list_eqb (out t) want && finished t); of_bool (finished t)].
 
-Fixpoint triples (sc : scen) (ts0 ts : list thread) (os : list op) (i : nat) : list sx :=
+Fixpoint triples (sc : scen) (ts : list thread) (os : list op) : list sx :=
   match ts, os with
   | t :: ts', o :: os' =>
       let want := spec_out (members sc) o in
-      triple (obs_thread want t)
-             (L [of_nats want; A 1%Z; A 1%Z])
-             (if Known_C20_mode_write (changed0 sc) ts0 i then 1 else 0)
-      :: triples sc ts0 ts' os' (S i)
+      triple (obs_thread want t) (L [of_nats want; A 1%Z; A 1%Z]) 0 :: triples sc ts' os'
   | _, _ => []
   end.
+
+(* some thread wrote something else than the content into the file of member i *)
+Definition file_bad (ts : list thread) (i : nat) : bool :=
+  existsb (fun t => existsb (fun p => Nat.eqb (fst p) i && negb (Nat.eqb (snd p) (t_inline i))) (fout t)) ts.
 
 Definition run_C20 (x : sx) : sx :=
   let sc := scen_of x in
   let sched := map sx_nat (sx_list (sx_nth 3 x)) in
-  let st0 := init sc in
-  let st := run_coarse sched st0 in
-  L (triples sc (thr st0) (thr st) (ops sc) 0).
+  let st := run_coarse false sched (init sc) in
+  let n := length (members sc) in
+  L (triples sc (thr st) (ops sc)
+     ++ [triple (L (map (fun i => of_bool (file_bad (thr st) i)) (seq 0 n)))
+                (L (map (fun _ => A 0%Z) (seq 0 n))) 0]).
